@@ -586,6 +586,41 @@ var vfFamABadNames = []string{
 	"no-mid-application-section", // a=mid removed from the m=application section only
 	"no-ice-ufrag-last-section",  // a=ice-ufrag removed from the last m-section only
 	"no-fingerprint-last-section",
+	// mids of a multi-section description that no longer line up with what was offered
+	"dup-mid-last-section",     // the last m-section repeats the first section's mid
+	"unknown-mid-last-section", // the last m-section carries a mid nobody offered
+	"swap-mids",                // the first and the last m-section exchange their mids
+}
+
+// vfFamARewriteMids edits the a=mid values of the first / last m-section (BUNDLE line untouched).
+func vfFamARewriteMids(text, mode string) (string, bool) {
+	lines := strings.SplitAfter(text, "\n")
+	var midIdx []int
+	inMedia := false
+	for i, l := range lines {
+		if strings.HasPrefix(l, "m=") {
+			inMedia = true
+		}
+		if inMedia && strings.HasPrefix(l, "a=mid:") {
+			midIdx = append(midIdx, i)
+		}
+	}
+	if len(midIdx) < 2 {
+		return "", false
+	}
+	first, last := midIdx[0], midIdx[len(midIdx)-1]
+	eol := func(l string) string { return l[len(strings.TrimRight(l, "\r\n")):] }
+	fv := strings.TrimRight(strings.TrimPrefix(lines[first], "a=mid:"), "\r\n")
+	lv := strings.TrimRight(strings.TrimPrefix(lines[last], "a=mid:"), "\r\n")
+	switch mode {
+	case "dup":
+		lines[last] = "a=mid:" + fv + eol(lines[last])
+	case "unknown":
+		lines[last] = "a=mid:vfzz9" + eol(lines[last])
+	case "swap":
+		lines[first], lines[last] = "a=mid:"+lv+eol(lines[first]), "a=mid:"+fv+eol(lines[last])
+	}
+	return strings.Join(lines, ""), true
 }
 
 // vfFamADropLinesInSection removes lines starting with prefix from one m-section:
@@ -653,6 +688,12 @@ func vfFamAMunge(bi int, text string) (string, bool) {
 		return "", false
 	}
 	switch vfFamABadNames[bi] {
+	case "dup-mid-last-section":
+		return vfFamARewriteMids(text, "dup")
+	case "unknown-mid-last-section":
+		return vfFamARewriteMids(text, "unknown")
+	case "swap-mids":
+		return vfFamARewriteMids(text, "swap")
 	case "no-mid-last-section":
 		return vfFamADropLinesInSection(text, "a=mid:", "last")
 	case "no-mid-first-section":
